@@ -12,7 +12,8 @@ if hasattr(sys, "set_int_max_str_digits"):
   sys.set_int_max_str_digits(0)
 
 PID = "C10"
-PROP_FILES = ["Prop"]
+PROP_FILES = ["Prop", "PropC05"]
+EXTRA_COQ_DIRS = ["C07", "C05", "C04"]   # PropC05 / ProofsC05 tie the list arithmetic to the Poly / ZFilter models
 ALLOWED_AXIOMS = []
 RULE = ("tables: every block over {-1,0,1/2,2} up to length 3 (4 thorough) x every max_lag in None,0..len+1, plus "
         "random rational blocks of length 2..10; levinson_durbin: every r over {-1,0,1,2} up to length 3 (4) x order "
@@ -35,8 +36,10 @@ trusted_base = [
   "Proofs_Gen.v proves the generated definitions equal to the hand-written table models on every input",
   "samples and lags are exact rationals (ExactQ absorbs the ints 0/1 the library mixes in); float rounding of "
   "the library's arithmetic is outside the statement ('in exact arithmetic all of these are equalities')",
-  "ZFilter/Poly arithmetic (+, -, scalar *, f(1/z) * z**-m, numlist) is modelled as coefficient-list arithmetic; "
-  "that it is, is checked here only through the correspondence (and is the subject of C05/C07)",
+  "ZFilter/Poly arithmetic (+, -, number * filter, f(1/z) * z**-m, / number, numlist) is modelled in C10/Model.v as "
+  "coefficient-list arithmetic; PropC05.v (C10_list_arith_is_filter_arith) proves each list operation equal to the "
+  "corresponding operation of the C05 ZFilter model / C07 Poly model on FIR filters (those models are tied to /repo "
+  "by the C05 / C07 checks); the composition into whole levinson_durbin / kcovar runs is tied by this check's correspondence",
   "negative 'order' arguments are outside the model's domain (order : option nat)"]
 ASSUMPTIONS = ["CPython list / generator / sum semantics as documented"]
 
